@@ -33,6 +33,11 @@ type mutation struct {
 	apply func(inst *wisInstance) error
 }
 
+// writeTick: no two writes share a clock reading. The in-memory config store stamps the resource version of an object
+// with its clock, and a real API server never hands out one resource version twice; istio derives versions that
+// enter cache keys from them (e.g. the aggregate PeerAuthentication version).
+func writeTick() { time.Sleep(time.Microsecond) }
+
 // world tracks which objects exist so that create/update/delete are chosen sensibly.
 type world struct {
 	// collide: which hostname collisions between ServiceEntries the generator may produce.
@@ -529,6 +534,7 @@ func (wd *world) put(kind, ns, name string, spec config.Spec, ctime int) mutatio
 		nc.ResourceVersion = ""
 		wd.exists[key] = nc
 		return mutation{kind: kind, desc: fmt.Sprintf("update %s %v", key, compactSpec(spec)), apply: func(inst *wisInstance) error {
+			writeTick()
 			_, err := inst.fds.Store().Update(nc.DeepCopy())
 			return err
 		}}
@@ -536,6 +542,7 @@ func (wd *world) put(kind, ns, name string, spec config.Spec, ctime int) mutatio
 	c := config.Config{Meta: config.Meta{GroupVersionKind: g, Name: name, Namespace: ns, CreationTimestamp: wlT0.Add(time.Duration(ctime) * time.Second)}, Spec: spec}
 	wd.exists[key] = c
 	return mutation{kind: kind, desc: fmt.Sprintf("create %s %v", key, compactSpec(spec)), apply: func(inst *wisInstance) error {
+		writeTick()
 		_, err := inst.fds.Store().Create(c.DeepCopy())
 		return err
 	}}
@@ -546,6 +553,7 @@ func (wd *world) del(kind, ns, name string) mutation {
 	key := kind + "/" + ns + "/" + name
 	delete(wd.exists, key)
 	return mutation{kind: kind, desc: "delete " + key, apply: func(inst *wisInstance) error {
+		writeTick()
 		return inst.fds.Store().Delete(g, name, ns, nil)
 	}}
 }
@@ -586,7 +594,10 @@ func (wd *world) startRecipe(tp *engine.Tape) {
 				TrafficPolicy: &networking.TrafficPolicy{ConnectionPool: &networking.ConnectionPoolSettings{Tcp: &networking.ConnectionPoolSettings_TCPSettings{MaxConnections: n}}}}}}
 		}
 		wd.recipe = []func(tp *engine.Tape) mutation{
-			func(tp *engine.Tape) mutation { settle("b", "se3"); return wd.put("ServiceEntry", "b", "se3", se([]string{"*"}), 0) },
+			func(tp *engine.Tape) mutation {
+				settle("b", "se3")
+				return wd.put("ServiceEntry", "b", "se3", se([]string{"*"}), 0)
+			},
 			func(tp *engine.Tape) mutation {
 				return wd.put("DestinationRule", "b", "dr1", &networking.DestinationRule{Host: h, TrafficPolicy: &networking.TrafficPolicy{LoadBalancer: lbs[0]}}, 0)
 			},
@@ -596,7 +607,10 @@ func (wd *world) startRecipe(tp *engine.Tape) {
 		}
 	case 3: // a service and the rule that gives it subsets go away together (one push when the gaps are short)
 		wd.recipe = []func(tp *engine.Tape) mutation{
-			func(tp *engine.Tape) mutation { settle("a", "se1"); return wd.put("ServiceEntry", "a", "se1", se(nil), 0) },
+			func(tp *engine.Tape) mutation {
+				settle("a", "se1")
+				return wd.put("ServiceEntry", "a", "se1", se(nil), 0)
+			},
 			func(tp *engine.Tape) mutation {
 				return wd.put("DestinationRule", "a", "dr1", &networking.DestinationRule{Host: h, Subsets: []*networking.Subset{
 					{Name: "v1", Labels: map[string]string{"version": "v1"}}, {Name: "v2", Labels: map[string]string{"version": "v2"}}}}, 0)
@@ -619,7 +633,10 @@ func (wd *world) startRecipe(tp *engine.Tape) {
 			return wd.put("DestinationRule", "a", "dr1", &networking.DestinationRule{Host: h, Subsets: []*networking.Subset{{Name: "sub", Labels: map[string]string{"version": v}}}}, 0)
 		}
 		wd.recipe = []func(tp *engine.Tape) mutation{
-			func(tp *engine.Tape) mutation { settle("a", "se1"); return wd.put("ServiceEntry", "a", "se1", se(nil), 0) },
+			func(tp *engine.Tape) mutation {
+				settle("a", "se1")
+				return wd.put("ServiceEntry", "a", "se1", se(nil), 0)
+			},
 			func(tp *engine.Tape) mutation { return sub("v1") },
 			func(tp *engine.Tape) mutation {
 				return wd.put("VirtualService", "a", "vs1", &networking.VirtualService{Hosts: []string{h}, Http: []*networking.HTTPRoute{{Route: []*networking.HTTPRouteDestination{{Destination: &networking.Destination{Host: h, Subset: "sub"}}}}}}, 0)
@@ -714,6 +731,7 @@ func (wd *world) next(tp *engine.Tape) mutation {
 		v := wd.mesh
 		return mutation{kind: "MeshConfig", desc: fmt.Sprintf("mesh configuration reload: variant %d (accessLogFile=%v registryOnly=%v connectTimeout3s=%v)", v, v&1 != 0, v&2 != 0, v&4 != 0),
 			apply: func(inst *wisInstance) error {
+				writeTick()
 				inst.setMesh(v)
 				return nil
 			}}
@@ -728,6 +746,7 @@ func (wd *world) next(tp *engine.Tape) mutation {
 	if exists && tp.Bool(1, 3, "delete") {
 		delete(wd.exists, key)
 		return mutation{kind: kind, desc: "delete " + key, apply: func(inst *wisInstance) error {
+			writeTick()
 			return inst.fds.Store().Delete(g, name, ns, nil)
 		}}
 	}
@@ -738,6 +757,7 @@ func (wd *world) next(tp *engine.Tape) mutation {
 		nc.ResourceVersion = ""
 		wd.exists[key] = nc
 		return mutation{kind: kind, desc: fmt.Sprintf("update %s %v", key, compactSpec(spec)), apply: func(inst *wisInstance) error {
+			writeTick()
 			_, err := inst.fds.Store().Update(nc.DeepCopy())
 			return err
 		}}
@@ -753,6 +773,7 @@ func (wd *world) next(tp *engine.Tape) mutation {
 	}
 	wd.exists[key] = c
 	return mutation{kind: kind, desc: fmt.Sprintf("create %s %v", key, compactSpec(spec)), apply: func(inst *wisInstance) error {
+		writeTick()
 		_, err := inst.fds.Store().Create(c.DeepCopy())
 		return err
 	}}
@@ -790,6 +811,7 @@ func (wd *world) endpointChange(tp *engine.Tape, hostname string) *mutation {
 		_ = g
 		_, _ = name, ns
 		return &mutation{kind: "ServiceEntry", desc: fmt.Sprintf("update endpoints of %s -> %v", k, nse.Endpoints), apply: func(inst *wisInstance) error {
+			writeTick()
 			_, err := inst.fds.Store().Update(nc.DeepCopy())
 			return err
 		}}
